@@ -13,6 +13,7 @@ import Ladybug.Proofs.C04Lemmas
 import Ladybug.Proofs.C04Listings
 import Ladybug.Proofs.C04Order
 import Ladybug.Proofs.C04Obj
+import Ladybug.Proofs.C04Forms
 
 open Cal
 
@@ -428,6 +429,101 @@ example : World.outs [fresh ⟨2, 28, 0, 3, 1, 23, 1, true⟩]
     [.nats [59, 60, 61], .made (.ok ⟨2, 28, 0, 3, 1, 23, 1, false⟩), .nats [59, 60], .made (.error .value),
      .nats [59, 60, 61]] := by decide +kernel
 example : Op.isRefused .setAttr = true ∧ (⟨1, 1, 9, 1, 1, 10, 2, false⟩ : AP).WF := by decide
+
+/-! ### Round 4: input shapes, aliasing of the caller's dictionary, the rarely taken branch
+
+`Model/APForms.lean`: dictionaries with `None` values and the in-place edit `from_dict` performs on
+the dictionary it is given (`fillNone`), the sparse dictionary form, the constructor fed with text
+for its numbers (`mkText?`, what `from_string` calls).  Each is compared with the real class on every
+run (driver ops `from_dictv`, `sparse`, `mk_text`). -/
+
+/-- **Reading the same dictionary object again gives the same period** (kind f, aliasing):
+    `from_dict` writes `None` under every key the caller left out; the dictionary it leaves behind
+    answers every lookup as before, so a second `from_dict` of the very same object – and any later
+    read of the caller's entries – is unaffected. -/
+theorem C04_from_dict_reread (d : DictV) :
+    (∀ k, lookupV (fillNone d) k = lookupV d k) ∧ fromDictV (fillNone d) = fromDictV d := by
+  refine ⟨lookupV_fillNone d, ?_⟩
+  unfold fromDictV
+  simp only [lookupV_fillNone]
+
+/-- A dictionary without `None` values is read like the (frozen) integer-valued model reads it, so
+    `C04_dict_roundtrip` speaks about `fromDictV` too. -/
+theorem C04_from_dict_values (kv : List (String × Int)) : fromDictV (DictV.ofInts kv) = fromDict kv := by
+  unfold fromDictV fromDict
+  simp only [lookupV_ofInts]
+
+/-- **The answer depends only on the mapping**, not on the insertion order / container of the
+    dictionary (kind i: dict, OrderedDict, subclass, any key order): two association lists that
+    answer every key alike build the same period. -/
+theorem C04_from_dict_order_independent (kv kv' : List (String × Int))
+    (h : ∀ k, lookup? kv k = lookup? kv' k) : fromDict kv = fromDict kv' := by
+  unfold fromDict
+  simp only [h]
+
+/-- **The sparse dictionary form reads back to an equal period**: `to_dict()` with every entry that
+    equals the documented default left out (missing keys take the defaults `1/1 0h – 12/31 23h @1`,
+    non-leap). -/
+theorem C04_dict_sparse_roundtrip (ap : AP) (hwf : ap.WF) : fromDict (sparseDict ap) = .ok ap :=
+  sparse_roundtrip ap hwf
+
+example : sparseDict ⟨6, 1, 0, 12, 5, 23, 4, true⟩ =
+    [("st_month", 6), ("end_day", 5), ("timestep", 4), ("is_leap_year", 1)] := by decide +kernel
+
+/-- **Text arguments build the same period as integer arguments** (kind i): the constructor fed with
+    text for its six date/hour numbers (what `from_string` does) accepts exactly what it accepts for
+    the same integers and builds the same period – as long as no field is the text "0" (an integer 0
+    means "missing", the text "0" does not) and the end day needs no clipping (with text the code
+    refuses instead of clipping). -/
+theorem C04_text_args_agree (stM stD stH endM endD endH ts : Int) (leap : Bool) (ap : AP)
+    (h1 : stM ≠ 0) (h2 : stD ≠ 0) (h3 : endM ≠ 0) (h4 : endD ≠ 0)
+    (hclip : ∀ t, Py.getIdx? (numDaysTable leap) (endM - 1) = some t → endD ≤ (t : Int)) :
+    mkText? stM stD stH endM endD endH ts leap = .ok ap ↔ mk? stM stD stH endM endD endH ts leap = .ok ap :=
+  text_args_agree stM stD stH endM endD endH ts leap ap h1 h2 h3 h4 hclip
+
+/-- **In the text form a month or day "0" is rejected** (it is no calendar date; only the integer 0 /
+    `None` stand for a missing argument). -/
+theorem C04_text_zero_rejected (stM stD stH endM endD endH ts : Int) (leap : Bool)
+    (h : stM = 0 ∨ stD = 0 ∨ endM = 0 ∨ endD = 0) :
+    ∃ e, mkText? stM stD stH endM endD endH ts leap = .error e :=
+  text_zero_rejected stM stD stH endM endD endH ts leap h
+
+example : mkText? 3 5 6 3 7 18 2 true = .ok ⟨3, 5, 6, 3, 7, 18, 2, true⟩ ∧
+    mkText? 0 5 6 3 7 18 2 true = .error .value ∧ mk? 0 5 6 3 7 18 2 true = .ok ⟨1, 5, 6, 3, 7, 18, 2, true⟩ := by
+  decide
+
+/-- **The rarely taken branch of `_calc_timestamps`** (kind j): the block after the loop appends
+    steps exactly when the timestep is sub-hourly, the loop stopped in hour 23, and the daily window
+    holds both 0:00 and 23:00 – and then it appends exactly the `timestep − 1` grid steps after the
+    segment's end. -/
+theorem C04_trailing_branch (ap : AP) (hwf : ap.WF) (st en : Nat) :
+    (ap.trailing st en ≠ [] ↔
+      ap.timestep ≠ 1 ∧ ap.currAfter st en / 60 % 24 = 23 ∧ ap.inWindow 0 ∧ ap.inWindow 1380) ∧
+    (ap.trailing st en ≠ [] →
+      ap.trailing st en = (List.range (ap.timestep - 1)).map fun k => en + (k + 1) * ap.step) := by
+  obtain ⟨hv1, hv2, hts⟩ := hwf
+  have hs : ap.st_hour ≤ 23 := hv1.2.2.2.2.1
+  have he : ap.end_hour ≤ 23 := hv2.2.2.2.2.1
+  have hp0 := possible0_iff ap hs he
+  have hp23 := possibleMod_iff ap hs he (23 * 60) (by omega)
+  have hts1 : 1 ≤ ap.timestep := by
+    rcases ts_cases hts with h | h | h | h | h | h | h | h | h | h | h | h <;> omega
+  unfold trailing
+  split
+  · rename_i hC
+    refine ⟨⟨fun _ => ⟨hC.1, hC.2.1, hp0.mp hC.2.2.1, hp23.mp hC.2.2.2⟩, fun _ => ?_⟩, fun _ => rfl⟩
+    intro hnil
+    have hlen := congrArg List.length hnil
+    simp only [List.length_map, List.length_range, List.length_nil] at hlen
+    have := hC.1
+    omega
+  · rename_i hC
+    refine ⟨⟨fun h => absurd rfl h, fun h => ?_⟩, fun h => absurd rfl h⟩
+    exact absurd ⟨h.1, h.2.1, hp0.mpr h.2.2.1, hp23.mpr h.2.2.2⟩ hC
+
+-- both sides of the branch are inhabited: taken (wrapping, sub-hourly, overnight window) / not taken
+example : (⟨12, 31, 20, 1, 1, 5, 4, true⟩ : AP).trailing 525600 526980 = [526995, 527010, 527025] ∧
+    (⟨12, 31, 0, 1, 1, 10, 2, false⟩ : AP).trailing 524160 525540 = [] := by decide +kernel
 
 /- Character-level `__repr__` / `from_string` round trip: NOT proved and not provable by a finite
    check here.  `String.replace`, `String.splitOn` and `String.toInt?` (used by the frozen
